@@ -107,6 +107,14 @@ def _dtype(eng, st, args, kwargs, node):
 @lib('attr:ndarray')
 def _nd_attr(eng, st, obj, attr, node):
 	c = st.heap[obj.addr]
+	if isinstance(c, SSeq) and c.T is TF32:
+		if attr == 'dtype':
+			return iter([(st, DType('f', 4))])
+		if attr == 'shape':
+			return iter([(st, (SInt(c.length),))])
+		if attr == 'ndim':
+			return iter([(st, 1)])
+		return None
 	if attr == 'dtype':
 		return iter([(st, dtype_of(c))])
 	if attr == 'shape':
@@ -380,13 +388,18 @@ def _empty(eng, st, args, kwargs, node):
 	if isinstance(n, tuple):
 		raise Unsupported('numpy.empty with a shape tuple')
 	nt = int_term(n)
-	if dt.kind == 'f':
-		raise Unsupported('float numpy.empty')
+	if dt.kind == 'f' and dt.itemsize != 4:
+		raise Unsupported('float64 numpy.empty')
 	for s2, ok in eng.branch(st, nt >= 0):
 		if not ok:
 			yield s2, Raised('ValueError')
 			continue
-		yield s2, mk_ndarray(s2, 'empty', dt, length=nt)
+		if dt.kind == 'f':
+			r = Ref('ndarray')
+			s2.heap[r.addr] = SSeq(TF32, z3.Const(fresh_name('emptyf'), z3.ArraySort(I, F32)), nt)
+			yield s2, r
+		else:
+			yield s2, mk_ndarray(s2, 'empty', dt, length=nt)
 
 
 @lib('numpy.asarray')
@@ -522,3 +535,15 @@ def _slice_indices(eng, st, obj, args, kwargs, node, site):
 			yield s2, Raised('ValueError')
 		else:
 			yield s2, (SInt(z3.simplify(start)), SInt(z3.simplify(stop)), SInt(step))
+
+
+
+class F32Arr(TypeSpec):
+	"""1-d float32 ndarray parameter"""
+
+	def make(self, name, st, eng):
+		r = Ref('ndarray')
+		v = SSeq(TF32, z3.Const(fresh_name(name), z3.ArraySort(I, F32)), z3.Int(fresh_name(name + '_len')))
+		st.assume(v.length >= 0)
+		st.heap[r.addr] = v
+		return r
